@@ -105,7 +105,7 @@ pub struct Config { pub threads: usize, pub timeout_ms: u64, pub replay_dir: Str
 #[derive(Clone, Debug)]
 pub struct KnownFinding { pub property: String, pub unit_prefix: String, pub label_prefix: String, pub what: String }
 
-struct Sched { jobs: Vec<(usize, Vec<bool>)>, active: usize, reports: Vec<UnitReport>, stopped: Vec<bool>, t0: Vec<Option<Instant>> }
+struct Sched { jobs: Vec<(usize, Vec<u8>)>, active: usize, reports: Vec<UnitReport>, stopped: Vec<bool>, t0: Vec<Option<Instant>> }
 
 pub fn model_json(m: &[(String, BigRational)]) -> J {
     J::Obj(m.iter().map(|(k, v)| (k.clone(), J::obj(vec![("exact", J::s(v.to_string())), ("f64", J::Num(sym::rat_f64(v)))]))).collect())
